@@ -181,8 +181,13 @@ def _check(prop, tier, seed, args, t0):
 
     # ---------------- classify obligations
     obligations = [o for r in results for o in r['obligations']]
-    n_obl = len(obligations)
-    n_ok = sum(1 for o in obligations if o['result'] == 'unsat')
+    # an obligation that is a listed known finding without a region is not claimed at all; one with a region counts
+    # as discharged when it is proved outside that region (and the finding itself is reported as KNOWN-FINDING)
+    whole_findings = [o for o in obligations if o.get('known_finding') and o.get('residual') == 'unsat' and
+                      not [f for f in findings if f['id'] == o['known_finding']][0].get('region')]
+    n_obl = len(obligations) - len(whole_findings)
+    n_ok = sum(1 for o in obligations if o['result'] == 'unsat' or
+               (o.get('known_finding') and o.get('residual') == 'unsat' and o not in whole_findings))
     undecided = []
     violations = []
     known = []
